@@ -109,6 +109,11 @@ def fixed_pool_cases(profile):
                           'with_key': True})
             cases.append({'backend': be, 'api': 'pf', 'n': 12, 'workers': 2, 'buffer': 4,
                           'delays': [4, 0, 0, 8, 0, 1, 0, 0, 2, 0, 0, 0], 'src': 'dict'})
+            # a history of short iterations with DIFFERENT functions in one process (per-process caches of
+            # serialised functions, pools that are re-used between iterations)
+            for k in range(8):
+                cases.append({'backend': be, 'api': 'lpm' if k % 2 else 'pm', 'n': 3, 'workers': 2, 'buffer': 2,
+                              'delays': [0, 1, 0], 'salt': 1000 + k})
         elif profile == 'stop':
             for api in ('lpm', 'pm', 'pf'):
                 cases.append({'backend': be, 'api': api, 'n': 30, 'workers': 2, 'buffer': 16, 'delays': [30] * 30,
